@@ -4,12 +4,14 @@ that concurrent builders do not edit the shared registry - merge at will).
     /venv/bin/python -m selftest.mutations_c02 [id ...] [--tier quick]    # runs ./check C02 on each mutant
 
 Result lines:  MUT <id> C02 exit=<rc> caught|MISSED|MACHINERY <first signature>
-All 18 were caught by the quick tier (notes/C02.md); two need the multi-render histories, the last one the\nboundary pixel style.\n\nThe UNCHANGED tree disagrees with the documented threshold rule where round(alpha * 255) rounds DOWN\n(signatures block:*:threshold-rounded-down:threshold and block:*:threshold-tie-rounded-down:threshold,\nsee notes/C02.md); a mutant counts as caught only if the check reports a signature OTHER than these\n(same convention as selftest/mutations_c05.py for F10), whether or not they are registered as known.
+All 19 were caught by the quick tier (notes/C02.md); two need the multi-render histories, one the
+boundary pixel style, the last one the interleaved renders.
+
+The three threshold mutations are written against the F18 fix (`alpha = alpha * 255`, no rounding).
 """
 
 from __future__ import annotations
 
-import fnmatch
 import os
 import shutil
 import subprocess
@@ -17,8 +19,6 @@ import sys
 from pathlib import Path
 
 VERIF = Path(__file__).resolve().parent.parent
-
-BASELINE_SIGNATURES = ["block:*:threshold-rounded-down:threshold", "block:*:threshold-tie-rounded-down:threshold"]
 
 MUTATIONS = {
     # DESIGN
@@ -54,8 +54,8 @@ MUTATIONS = {
     # DESIGN
     'c02-threshold-plus-2': dict(
         file='image/common.py', props=["C02"],
-        old='alpha = round(alpha * 255)\n',
-        new='alpha = round(alpha * 255) + 2\n',
+        old='                        alpha = alpha * 255\n',
+        new='                        alpha = alpha * 255 + 2\n',
     ),
     # DESIGN
     'c02-n-not-reset': dict(
@@ -102,8 +102,10 @@ MUTATIONS = {
     # own
     'c02-threshold-off-by-one': dict(
         file='image/common.py', props=["C02"],
+        # (`val <= alpha` differs from the unrounded comparison only exactly AT the threshold, which the
+        # property leaves open; one level too high is the nearest observable off-by-one)
         old='a = [0 if val < alpha else 255 for val in a]',
-        new='a = [0 if val <= alpha else 255 for val in a]',
+        new='a = [0 if val < alpha + 1 else 255 for val in a]',
     ),
     # own
     'c02-kitty-test-on-upper-pixel': dict(
@@ -127,8 +129,23 @@ MUTATIONS = {
     # alpha is floor(threshold * 255): the "boundary" pixel style)
     'c02-threshold-int-instead-of-round': dict(
         file='image/common.py', props=["C02"],
-        old='                        alpha = round(alpha * 255)\n',
+        old='                        alpha = alpha * 255\n',
         new='                        alpha = int(alpha * 255)  # 8-bit alpha level\n',
+    ),
+    # seeded/C02-y2 (needs two OVERLAPPING renders: the interleaved renders at a seam inside _render_image)
+    'c02-shared-render-buffer': dict(
+        props=["C02"],
+        edits=[
+            dict(file='image/block.py',
+                 old='UPPER_PIXEL = "\\u2580"  # upper-half block element\n',
+                 new='UPPER_PIXEL = "\\u2580"  # upper-half block element\n_render_buffer = io.StringIO()\n'),
+            dict(file='image/block.py',
+                 old='        buffer = io.StringIO()\n',
+                 new='        buffer = _render_buffer\n        buffer.seek(0)\n        buffer.truncate()\n'),
+            dict(file='image/block.py',
+                 old='        with buffer:\n            return buffer.getvalue()\n',
+                 new='        return buffer.getvalue()\n'),
+        ],
     ),
 }
 
@@ -139,12 +156,13 @@ def apply(mid: str) -> Path:
     shutil.rmtree(root, ignore_errors=True)
     root.mkdir(parents=True)
     subprocess.run(["rsync", "-a", "/repo/src", str(root) + "/"], check=True)
-    f = root / "src" / "term_image" / m["file"]
-    text = f.read_text()
-    if text.count(m["old"]) != 1:
-        raise SystemExit(f"{mid}: pattern occurs {text.count(m['old'])} times in {m['file']}")
-    f.write_text(text.replace(m["old"], m["new"]))
-    subprocess.run([sys.executable, "-m", "py_compile", str(f)], check=True)
+    for e in m["edits"] if "edits" in m else [m]:
+        f = root / "src" / "term_image" / e["file"]
+        text = f.read_text()
+        if text.count(e["old"]) != 1:
+            raise SystemExit(f"{mid}: pattern occurs {text.count(e['old'])} times in {e['file']}")
+        f.write_text(text.replace(e["old"], e["new"]))
+        subprocess.run([sys.executable, "-m", "py_compile", str(f)], check=True)
     return root
 
 
@@ -157,8 +175,8 @@ def run(mid: str, tier: str = "quick") -> int:
     finally:
         shutil.rmtree(root, ignore_errors=True)
     sig = [l.strip()[len("signature: "):] for l in p.stdout.splitlines() if l.strip().startswith("signature:")]
-    own = [x for x in sig if not any(fnmatch.fnmatchcase(x, pat) for pat in BASELINE_SIGNATURES)]
-    status = "MACHINERY" if p.returncode == 2 else ("caught" if p.returncode == 1 and own else "MISSED")
+    own = sig
+    status = "MACHINERY" if p.returncode == 2 else ("caught" if p.returncode == 1 else "MISSED")
     print(f"MUT {mid} C02 exit={p.returncode} {status} {own[0] if own else ''}", flush=True)
     if p.returncode == 2:
         print("\n".join(p.stdout.splitlines()[-15:]))
